@@ -19,6 +19,11 @@ import (
 //
 //   fail() / o.Fail()   a helper / method that records that it ran and returns a sentinel error
 //                       -> if it ran: err != nil, errors.Is(err, sentinel), output == ""
+//   failU() / o.FailU() / failD()
+//                       a helper / method whose error WRAPS (failU, o.FailU) or IS (failD) a *plush.ErrUnknownIdentifier:
+//                       a failed helper call, not "an unknown identifier used as a condition / operand"
+//                       -> if it ran: err != nil, errors.Is(err, that error), output == "" — at every position,
+//                          the tolerant ones included
 //   (1 / 0), xs[9]      an operation that fails (only at positions the failing helper showed to be evaluated)
 //                       -> err != nil, output == ""
 //   undef               an unknown identifier (only at evaluated positions)
@@ -33,17 +38,30 @@ import (
 
 var c05Sentinel = errors.New("c05 sentinel: instrumented helper failed")
 
-type c05Obj struct {
-	Name string
-	ran  *bool
+// the original error of the helpers that fail "because something inside them hit an unknown identifier"
+// (Err is set: (*ErrUnknownIdentifier).Error() would otherwise write it on first use)
+var c05SentinelU = &plush.ErrUnknownIdentifier{ID: "c05inner", Err: errors.New("c05 sentinel: unknown identifier inside the instrumented helper")}
+var c05WrappedU = fmt.Errorf("c05: instrumented helper failed in a nested lookup: %w", c05SentinelU)
+
+// c05Rec records the error the instrumented helper returned (nil: it was not invoked)
+type c05Rec struct{ err error }
+
+func (r *c05Rec) fail(err error) (string, error) {
+	if r.err == nil {
+		r.err = err
+	}
+	return "", err
 }
 
-func (o *c05Obj) Get(i int) int        { return i }
-func (o *c05Obj) Echo(s string) string { return s }
-func (o *c05Obj) Fail() (string, error) {
-	*o.ran = true
-	return "", c05Sentinel
+type c05Obj struct {
+	Name string
+	rec  *c05Rec
 }
+
+func (o *c05Obj) Get(i int) int          { return i }
+func (o *c05Obj) Echo(s string) string   { return s }
+func (o *c05Obj) Fail() (string, error)  { return o.rec.fail(c05Sentinel) }
+func (o *c05Obj) FailU() (string, error) { return o.rec.fail(c05WrappedU) }
 
 type c05It struct{ pos, end int }
 
@@ -55,11 +73,12 @@ func (it *c05It) Next() interface{} {
 	return it.pos
 }
 
-func c05Env(partials map[string]string, ran *bool) map[string]interface{} {
+func c05Env(partials map[string]string, rec *c05Rec) map[string]interface{} {
 	m := map[string]interface{}{
 		// defaults for the names base programs bind themselves (let variables, loop variables, fn parameters,
 		// contentOf / partial data): they only matter when a fragment of a program is rendered on its own
 		"w": 1, "q0": "q", "q1": "q", "k0": 0, "k1": 0, "k2": 0, "v0": 1, "v1": 1, "v2": 1, "a": 1, "b": "b", "x": 1,
+		"yield": template.HTML("y"),
 	}
 	for i := 1; i <= 40; i++ {
 		m["sv"+strconv.Itoa(i)] = "s"
@@ -69,7 +88,7 @@ func c05Env(partials map[string]string, ran *bool) map[string]interface{} {
 		"n1": 1, "n2": 2, "n3": 3, "s1": "a", "s2": "b", "t": true, "f": false,
 		"xs": []int{1, 2, 3}, "ys": []string{"a", "b"}, "zs": []interface{}{1, 2},
 		"m": map[string]interface{}{"k": "v"}, "mm": map[string]interface{}{},
-		"o":    &c05Obj{Name: "ob", ran: ran},
+		"o":    &c05Obj{Name: "ob", rec: rec},
 		"it3":  &c05It{0, 3},
 		"add":  func(a, b int) int { return a + b },
 		"cat":  func(a, b string) string { return a + b },
@@ -90,10 +109,9 @@ func c05Env(partials map[string]string, ran *bool) map[string]interface{} {
 			}
 			return template.HTML(template.HTMLEscapeString(s) + b), nil
 		},
-		"fail": func() (string, error) {
-			*ran = true
-			return "", c05Sentinel
-		},
+		"fail":  func() (string, error) { return rec.fail(c05Sentinel) },
+		"failU": func() (string, error) { return rec.fail(c05WrappedU) },
+		"failD": func() (string, error) { return rec.fail(c05SentinelU) },
 		"partialFeeder": func(name string) (string, error) {
 			if p, ok := partials[name]; ok {
 				return p, nil
@@ -170,15 +188,16 @@ func c05ParseCase(s string) (c05Case, error) {
 	return c, nil
 }
 
-func c05Run(tmpl string, partials map[string]string) (Obs, bool) {
-	ran := false
+// c05Run renders and returns the observation and the error the instrumented helper returned (nil: not invoked)
+func c05Run(tmpl string, partials map[string]string) (Obs, error) {
+	rec := &c05Rec{}
 	o := safeCall(3*time.Second, func() (string, error) {
-		return plush.Render(tmpl, plush.NewContextWith(c05Env(partials, &ran)))
+		return plush.Render(tmpl, plush.NewContextWith(c05Env(partials, rec)))
 	})
 	if o.Hang {
-		return o, false
+		return o, nil // the render may still be running: do not read rec
 	}
-	return o, ran
+	return o, rec.err
 }
 
 var c05Tolerant = map[string]string{
@@ -250,15 +269,15 @@ func (c *c05Oracle) dup(cs c05Case) bool {
 }
 
 // c05Verdict applies one check to one observation: "" = holds, else the Failure.Kind.
-func c05Verdict(check string, o Obs, ran bool, ref *Obs) string {
+func c05Verdict(check string, o Obs, ran error, ref *Obs) string {
 	switch check {
 	case "ran-implies-error":
 		switch {
-		case !ran:
+		case ran == nil:
 			return ""
 		case o.Err == nil:
 			return "missing-error"
-		case !errors.Is(o.Err, c05Sentinel):
+		case !errors.Is(o.Err, ran):
 			return "wrong-error"
 		case o.Out != "":
 			return "wrong-output"
@@ -298,55 +317,36 @@ func (c *c05Oracle) shrink(cs c05Case, kind string) (c05Case, Obs, string) {
 	if s == nil {
 		return cs, Obs{}, ""
 	}
+	// violates: does the frame f (with its statement list reduced to parts, if given), rendered on its own, show the violation?
+	violates := func(f *c05N, alone bool) (string, map[string]string, Obs, bool) {
+		t, p := c.frameText(f, alone, c.instr, cs)
+		if cs.check != "ran-implies-error" {
+			// is the position evaluated at all in this smaller frame? ask the failing helper
+			ft, pp := c.frameText(f, alone, "fail()", cs)
+			if _, evaluated := c05Run(ft, pp); evaluated == nil {
+				return t, p, Obs{}, false
+			}
+		}
+		o, ran := c05Run(t, p)
+		if o.Kind() == "PANIC" || o.Kind() == "HANG" {
+			return t, p, o, false
+		}
+		return t, p, o, c05Verdict(cs.check, o, ran, nil) == kind
+	}
 	prev := ""
 	for j := len(s.anc) - 1; j >= 0; j-- {
 		f := s.anc[j]
 		if f.code {
 			continue
 		}
-		p := map[string]string{}
-		var t string
-		if j == len(s.anc)-1 {
-			t = "<%= " + c.instr + " %>"
+		alone := j == len(s.anc)-1
+		if t, _ := c.frameText(f, alone, c.instr, cs); t == prev {
+			continue
 		} else {
-			t = c05Text(f, c05Sub{s.node, c.instr}, p)
-			if f.role != "" {
-				t = "<%= " + t + " %>"
-			}
+			prev = t
 		}
-		if t == prev {
-			continue
-		}
-		prev = t
-		for k, v := range cs.partials {
-			if _, ok := p[k]; !ok && strings.Contains(t, `"`+k+`"`) {
-				p[k] = v
-			}
-		}
-		if cs.check != "ran-implies-error" {
-			// is the position evaluated at all in this smaller frame? ask the failing helper
-			pp := map[string]string{}
-			ft := "<%= fail() %>"
-			if j < len(s.anc)-1 {
-				ft = c05Text(f, c05Sub{s.node, "fail()"}, pp)
-				if f.role != "" {
-					ft = "<%= " + ft + " %>"
-				}
-			}
-			for k, v := range p {
-				if _, ok := pp[k]; !ok {
-					pp[k] = v
-				}
-			}
-			if _, evaluated := c05Run(ft, pp); !evaluated {
-				continue
-			}
-		}
-		o, ran := c05Run(t, p)
-		if o.Kind() == "PANIC" || o.Kind() == "HANG" {
-			continue
-		}
-		if c05Verdict(cs.check, o, ran, nil) != kind {
+		t, p, o, bad := violates(f, alone)
+		if !bad {
 			continue
 		}
 		label := "call"
@@ -356,9 +356,88 @@ func (c *c05Oracle) shrink(cs c05Case, kind string) (c05Case, Obs, string) {
 				break
 			}
 		}
+		if c05StmtList(f) && !alone {
+			// a statement list (the program, a block, a partial body): drop, one at a time, every statement beside the
+			// one that holds the instrument, as long as the same violation still shows
+			cur := &c05N{ctx: f.ctx, parts: append([]interface{}{}, f.parts...)}
+			for i := len(cur.parts) - 1; i >= 0 && len(cur.parts) <= 24; i-- {
+				if n, ok := cur.parts[i].(*c05N); ok && n == s.anc[j+1] {
+					continue
+				}
+				trial := &c05N{ctx: f.ctx}
+				trial.parts = append(append(trial.parts, cur.parts[:i]...), cur.parts[i+1:]...)
+				if tt, tp, to, tbad := violates(trial, false); tbad {
+					cur, t, p, o = trial, tt, tp, to
+				}
+			}
+		}
 		return c05Case{check: cs.check, tmpl: t, partials: p}, o, label
 	}
 	return cs, Obs{}, ""
+}
+
+// c05StmtList: a node whose parts are whole statements (the program, a block, a partial body) — not syntax fragments
+func c05StmtList(f *c05N) bool {
+	if f.ctx == "" || f.role != "" || f.code {
+		return false
+	}
+	for _, x := range f.parts {
+		if _, ok := x.(*c05N); !ok {
+			return false
+		}
+	}
+	return true
+}
+
+// frameText: the text of frame f with the instrument at the site under test (alone: just the instrument in an output
+// tag), made self-contained: the partials it refers to (transitively) and, if it uses contentOf of the block the program
+// defines up front, that definition in front.
+func (c *c05Oracle) frameText(f *c05N, alone bool, instr string, cs c05Case) (string, map[string]string) {
+	s := c.site
+	p := map[string]string{}
+	var t string
+	if alone {
+		t = "<%= " + instr + " %>"
+	} else {
+		t = c05Text(f, c05Sub{s.node, instr}, p)
+		if f.role != "" {
+			t = "<%= " + t + " %>"
+		}
+	}
+	// partials outside f's subtree: as in the full variant (the site is never inside one of those)
+	names := make([]string, 0, len(cs.partials))
+	for k := range cs.partials {
+		names = append(names, k)
+	}
+	sort.Strings(names)
+	for changed := true; changed; {
+		changed = false
+		for _, k := range names {
+			if _, ok := p[k]; ok {
+				continue
+			}
+			used := strings.Contains(t, `"`+k+`"`)
+			for _, body := range p {
+				used = used || strings.Contains(body, `"`+k+`"`)
+			}
+			if used {
+				p[k] = cs.partials[k]
+				changed = true
+			}
+		}
+	}
+	uses := strings.Contains(t, `contentOf("cfT"`)
+	for _, body := range p {
+		uses = uses || strings.Contains(body, `contentOf("cfT"`)
+	}
+	if uses && !strings.Contains(t, `contentFor("cfT")`) {
+		for _, x := range s.anc[0].parts {
+			if n, ok := x.(*c05N); ok && n.calls == "def:cfT" {
+				t = c05Text(n, c05Sub{s.node, instr}, p) + t
+			}
+		}
+	}
+	return t, p
 }
 
 func c05Short(s string) string {
@@ -369,7 +448,7 @@ func c05Short(s string) string {
 }
 
 var c05Demand = map[string]string{
-	"ran-implies-error": "the instrumented failing helper was invoked, so Render must return (\"\", err) with errors.Is(err, sentinel)",
+	"ran-implies-error": "the instrumented failing helper was invoked, so Render must return (\"\", err) with errors.Is(err, the error that helper returned)",
 	"op-must-fail":      "a failing operation (division by zero / index out of bounds) was evaluated, so Render must return (\"\", err)",
 	"unknown-must-fail": "an unknown identifier was evaluated at a position that is neither a condition nor an operand of ! == != && || (nor below one), so Render must return (\"\", err) with err wrapping *plush.ErrUnknownIdentifier",
 }
@@ -441,7 +520,7 @@ func (c *c05Oracle) runCase(cs c05Case) (invoked bool) {
 			return
 		}
 		rep.Tag("unknown-ident-tolerated-position")
-		if c05Verdict(cs.check, o, false, &ref) != "" && !c.dup(cs) {
+		if c05Verdict(cs.check, o, nil, &ref) != "" && !c.dup(cs) {
 			rep.Fail(Failure{Case: cs.String(), Kind: "wrong-error", Site: cs.family,
 				What: fmt.Sprintf("an unknown identifier directly as condition / operand of ! == != && || counts as nil: expected the result of the same program with nil (%q, nil); got (%q, %v)", c05Short(ref.Out), c05Short(o.Out), o.Err)})
 		}
@@ -452,19 +531,23 @@ func (c *c05Oracle) runCase(cs c05Case) (invoked bool) {
 		return
 	}
 	o, ran := c05Run(cs.tmpl, cs.partials)
-	rep.Count(cs.String(), ran || cs.check != "ran-implies-error")
+	rep.Count(cs.String(), ran != nil || cs.check != "ran-implies-error")
 	if o.Kind() == "PANIC" || o.Kind() == "HANG" {
 		rep.Tag("skipped-" + o.Kind() + "(C04)")
 		return
 	}
 	switch cs.check {
 	case "ran-implies-error":
-		if !ran {
+		if ran == nil {
 			rep.Tag("helper-not-invoked")
 			return
 		}
 		invoked = true
-		rep.Tag("helper-invoked")
+		if ran == c05Sentinel {
+			rep.Tag("helper-invoked")
+		} else {
+			rep.Tag("helper-invoked(error is/wraps an unknown-identifier error)")
+		}
 	case "op-must-fail":
 		rep.Tag("failing-operation")
 	case "unknown-must-fail":
@@ -513,13 +596,72 @@ func c05Mini() []*c05N {
 		stmt(`<% contentFor("c") { %>`, &c05N{ctx: "contentFor-block", parts: []interface{}{"<%= ", c05E("out", "s1"), " %>"}}, `<% } %><%= contentOf("c") %>`),
 		stmt(`<%= partial("p") %>`, &c05N{ctx: "partial-body", partial: "p", parts: []interface{}{"<%= ", c05E("out", "s1"), " %>"}}),
 	)
+	// multi-step positions: a partial rendered with a layout (failure in the partial / in the layout), also one level down
+	outTag := func(ctx, partial string, tail ...interface{}) *c05N {
+		n := &c05N{ctx: ctx, partial: partial, parts: []interface{}{"<%= ", c05E("out", "s1"), " %>"}}
+		n.parts = append(n.parts, tail...)
+		return n
+	}
+	withLayout := func(data string) *c05N {
+		return c05E("out", `partial("p", `+data+`)`, outTag("partial-body", "p"), outTag("layout-body", "l", "<ul><%= yield %></ul>"))
+	}
+	out = append(out,
+		stmt("<%= ", withLayout(`{"layout": "l"}`), " %>"),
+		stmt("<%= ", withLayout(`{layout: "l"}`), " %>"),
+		stmt(`<%= partial("pg") %>`, &c05N{ctx: "partial-body", partial: "pg", parts: []interface{}{"<b><%= ", withLayout(`{"layout": "l"}`), " %></b>"}}),
+		stmt(`<% let contentType = "application/javascript" %><%= partial("p.html") %>`, outTag("partial-body", "p.html")),
+	)
+	// a helper that renders nested template code (partial / block helper / contentOf of a contentFor block) standing
+	// directly at each tolerant position: a failure inside it is a failed helper call
+	type nested struct {
+		pre string
+		mk  func(role string) *c05N
+	}
+	forms := []nested{
+		{"", func(role string) *c05N { return c05E(role, `partial("p")`, outTag("partial-body", "p")) }},
+		{"", func(role string) *c05N { return c05E(role, "blk() { %>", outTag("helper-block", ""), "<% }") }},
+		{"cf", func(role string) *c05N { return c05E(role, `contentOf("c")`) }},
+	}
+	for _, f := range forms {
+		f := f
+		st := func(parts ...interface{}) *c05N {
+			if f.pre != "" {
+				parts = append([]interface{}{&c05N{parts: []interface{}{`<% contentFor("c") { %>`, outTag("contentFor-block", ""), "<% } %>"}}}, parts...)
+			}
+			return stmt(parts...)
+		}
+		out = append(out,
+			st("<% if (", f.mk("if-cond"), ") { %>x<% } %>"),
+			st("<% if (f) { %>x<% } else if (", f.mk("elseif-cond"), ") { %>y<% } %>"),
+			st("<%= ", c05E("out", "!", f.mk("not-operand")), " %>"),
+		)
+		for _, op := range []string{"==", "!="} {
+			out = append(out,
+				st("<%= ", c05E("out", "(", f.mk("infix-L("+op+")"), " "+op+" ", c05E("infix-R("+op+")", "nil"), ")"), " %>"),
+				st("<%= ", c05E("out", "(", c05E("infix-L("+op+")", "nil"), " "+op+" ", f.mk("infix-R("+op+")"), ")"), " %>"),
+			)
+		}
+		for _, op := range []string{"&&", "||"} {
+			other := map[string]string{"&&": "t", "||": "f"}[op]
+			out = append(out,
+				st("<%= ", c05E("out", "(", f.mk("infix-L("+op+")"), " "+op+" ", c05E("infix-R("+op+")", other), ")"), " %>"),
+				st("<%= ", c05E("out", "(", c05E("infix-L("+op+")", other), " "+op+" ", f.mk("infix-R("+op+")"), ")"), " %>"),
+			)
+		}
+	}
 	return out
 }
 
 var c05FailInstr = []string{"fail()", "o.Fail()"}
-var c05OpInstr = []string{"(1 / 0)", "xs[9]"}
 
-func (c *c05Oracle) base(root *c05N, idx int) {
+// helpers that fail with an error that wraps / is an unknown-identifier error (what a helper rendering nested code returns
+// when that code uses an undefined name): no frame may take that for "an unknown identifier used as a condition / operand"
+var c05FailUInstr = []string{"failU()", "o.FailU()", "failD()"}
+
+// division by zero, index out of bounds, operator on mismatched kinds, missing field / method
+var c05OpInstr = []string{"(1 / 0)", "xs[9]", "(s1 - 1)", "o.Nope"}
+
+func (c *c05Oracle) base(root *c05N, idx int, mini bool) {
 	rep := c.rep
 	parts := map[string]string{}
 	baseTmpl := c05Text(root, c05Sub{}, parts)
@@ -553,6 +695,18 @@ func (c *c05Oracle) base(root *c05N, idx int) {
 		}
 		rep.Tag("position " + c05RoleClass(role))
 		rep.Tag("inside " + ctx)
+		// (1b) the failing helper whose error wraps / is an unknown-identifier error: at every position of the minimal
+		// programs; in random programs at every position at or below a tolerant frame and at every 4th other one
+		if mini || direct || above != "" || (idx+si)%4 == 0 {
+			for k, in := range c05FailUInstr {
+				if !mini && k != (idx+si)%len(c05FailUInstr) {
+					continue
+				}
+				c.instr = in
+				t, p = variant(c.instr)
+				c.runCase(c05Case{check: "ran-implies-error", tmpl: t, partials: p})
+			}
+		}
 		// (2) a failing operation at the same (evaluated) position
 		c.instr = c05OpInstr[(idx+si)%len(c05OpInstr)]
 		t, p = variant(c.instr)
@@ -576,7 +730,7 @@ func init() {
 	oracles["C05"] = func(cfg Config) []*Report {
 		rep := NewReport("C05", "C05", cfg)
 		c := &c05Oracle{rep: rep}
-		rep.Rule = "base programs: " + strconv.Itoa(len(c05Mini())) + " fixed minimal ones (one per operator x 4 surroundings, one per position class) + random well-formed programs that evaluate without error (text, output/silent tags, let/assign/index-write, if/else-if/else, for over slice/map/iterator/helper result with break/continue, block helpers incl. htmlEscape and contentOf's default block, contentFor+contentOf, partial with data, user fn definition+call, return); for EVERY expression position of a base program (operand of each of the 13 binary operators and of !, condition, index/indexed value/assigned value, array/hash element, argument of Go/variadic/built-in/block helper, method or user function, let/assign/return value, loop iterable; inside branch, loop, helper block, contentFor block, partial and fn bodies) one variant per instrument: failing helper (fail()/o.Fail() alternating), and where it ran: a failing operation ((1 / 0) / xs[9]) and an unknown identifier; non-trivial = the instrument was evaluated; distinct by case text"
+		rep.Rule = "base programs: " + strconv.Itoa(len(c05Mini())) + " fixed minimal ones (one per operator x 4 surroundings, one per position class, partial with layout (failure in the partial / in the layout / one partial further down), each tolerant position x {partial, block helper, contentOf of a contentFor block} standing directly there) + random well-formed programs that evaluate without error (text, output/silent tags, let/assign/index-write, if/else-if/else, for over slice/map/iterator/helper result with break/continue, block helpers incl. htmlEscape and contentOf's default block, contentFor+contentOf, partial with data / with a layout partial / under a javascript content type, user fn definition+call, return; helpers that render nested code (partial, block helper + block, contentOf) also as operands: if/else-if condition, operand of ! == != && ||, array element, argument, printed value); for EVERY expression position of a base program (operand of each of the 13 binary operators and of !, condition, index/indexed value/assigned value, array/hash element, argument of Go/variadic/built-in/block helper, method or user function, let/assign/return value, loop iterable; inside branch, loop, helper block, contentFor block, partial, layout and fn bodies) one variant per instrument: failing helper (fail()/o.Fail() alternating), and where it ran: a failing helper whose error wraps / is an unknown-identifier error (failU()/o.FailU()/failD(); every position at or below a tolerant frame, every 4th other one), a failing operation ((1 / 0) / xs[9] / (s1 - 1) / o.Nope) and an unknown identifier; non-trivial = the instrument was evaluated; distinct by case text"
 		if cfg.Arg != "" {
 			cs, err := c05ParseCase(cfg.Arg)
 			if err != nil {
@@ -590,16 +744,17 @@ func init() {
 			"short-circuit and untaken branches are respected: a position counts only if the instrumented helper actually ran there",
 			"an unknown identifier nested below (not directly at) a condition or an operand of ! == != && || — e.g. if (f(undef)) — is not checked either way: the statement does not say whether the tolerance reaches through intermediate frames",
 			"panics/hangs of a variant are C04's subject and are skipped here",
+			"a helper that fails because the template code it renders (partial, block, contentFor block) uses an unknown identifier in a non-tolerated position is a failed helper call: Render must fail even when that helper call itself stands as a condition or operand of ! == != && ||",
 			"a violation is reported on the innermost enclosing frame (instrument alone, expression, statement, block, partial body, whole program) that shows it when rendered on its own; the family id names the edge below that frame (which operand / condition / block lost the error); at most 12 violations per (check, kind, position role) and chunk are shrunk and listed")
 		for i, b := range c05Mini() {
-			c.base(b, i)
+			c.base(b, i, true)
 		}
-		n := cfg.N(500, 9000)
-		c04Chunked(rep, cfg, 8, n, func(lo, hi int, wr *Report) {
+		n := cfg.N(400, 7200)
+		c04Chunked(rep, cfg, 16, n, func(lo, hi int, wr *Report) {
 			w := &c05Oracle{rep: wr}
 			for i := lo; i < hi && !wr.Full(); i++ {
 				// base program i depends on (seed, i) only
-				w.base(c05Program(NewRng(cfg.Seed^(uint64(i)+1)*0x9E3779B97F4A7C15).Fork(5)), i)
+				w.base(c05Program(NewRng(cfg.Seed^(uint64(i)+1)*0x9E3779B97F4A7C15).Fork(5)), i, false)
 			}
 		})
 		return []*Report{rep}
